@@ -28,13 +28,15 @@ SIM_PLANS = {
                 delays=('none', 'fixed', 'model')),
     'C07': dict(n=(1600, 16000), strata={'benign': 3, 'units': 2, 'tight': 2, 'simul': 2,
                                        'contend': 1}, overrate=0.12),
-    'C08': dict(n=(1600, 16000), strata={'simul': 4, 'contend': 3, 'refuse': 2, 'benign': 2}),
+    'C08': dict(n=(1600, 16000), strata={'simul': 4, 'contend': 3, 'refuse': 2, 'benign': 2,
+                                         'units': 2}),
     'C09': dict(n=(1600, 16000), strata={'contend': 4, 'simul': 3, 'benign': 1},
                 pairings=('batch',), adversary=0.2, adv_profiles=('reject_foreign',),
                 permute=0.3),
     'C12': dict(n=(1600, 16000), strata={'simul': 4, 'contend': 3, 'benign': 2, 'tight': 1,
                                        'units': 1}),
-    'C13': dict(n=(1600, 16000), strata={'simul': 3, 'contend': 2, 'benign': 3, 'zero': 1}),
+    'C13': dict(n=(1600, 16000), strata={'simul': 3, 'contend': 2, 'benign': 3, 'zero': 1,
+                                         'units': 1}),
     'C15': dict(n=(800, 8000), strata={'benign': 3, 'contend': 2, 'zero': 1},
                 delays=('fixed',)),
     'C17': dict(n=(1600, 16000), strata={'contend': 4, 'simul': 3, 'benign': 2},
